@@ -41,6 +41,7 @@ import copy
 import functools
 import os
 import pickle
+import signal
 import time
 from collections import deque
 
@@ -502,21 +503,19 @@ def _alarm(signum, frame):
 
 
 def decide(hist, cfgs, rcfg, plog):
-    """one call of the real decision function (guarded by a 0.5 s timer that keeps firing: a wrong
+    """one call of the real decision function (guarded by a 1 s CPU-time timer that keeps firing: a wrong
     jump offset can make slide() spin forever, and one alarm may be swallowed, e.g. inside a __del__)"""
-    import signal
-
-    old = signal.signal(signal.SIGALRM, _alarm)
-    signal.setitimer(signal.ITIMER_REAL, 0.5, 0.1)
+    signal.signal(signal.SIGVTALRM, _alarm)
     try:
-        return ("ok", _LIB["F"].compute_next_steps(hist, cfgs, rcfg, plog))
+        try:
+            signal.setitimer(signal.ITIMER_VIRTUAL, 1.0, 0.1)
+            return ("ok", _LIB["F"].compute_next_steps(hist, cfgs, rcfg, plog))
+        finally:
+            signal.setitimer(signal.ITIMER_VIRTUAL, 0)
     except ImplHang:
-        return ("exc", "no result within 0.5 s (endless slide)")
+        return ("exc", "no result within 1 s of CPU time (endless slide)")
     except Exception as e:  # noqa
         return ("exc", f"{type(e).__name__}: {e}"[:300])
-    finally:
-        signal.setitimer(signal.ITIMER_REAL, 0)
-        signal.signal(signal.SIGALRM, old)
 
 
 def norm(res):
@@ -578,12 +577,14 @@ class World:
         self.results = (0, 1) if (reads_r(P["flows"]["f1"]) or reads_r(P["sub"] or ())
                                   or reads_r(P["flows"]["f2"])) else (1,)
         self.calls = 0
+        self.trace = []  # (script, k) of every call made on the used configs, in order
 
     def fresh(self):
         return flow_configs_of(pickle.loads(self.pristine))
 
-    def eval_used(self, hist):
+    def eval_used(self, hist, nid=None):
         self.calls += 1
+        self.trace.append(nid)
         del self.plog[:]
         return decide(hist, self.used, self.cfg_used, self.plog)
 
@@ -627,10 +628,14 @@ class World:
         return {v: c.get(v) for v in VARS}
 
 
-def check_node(W, ahist, hist, r):
+def node_id(ahist, k):
+    return ([list(e) for e in ahist if e[0] in ("user", "done")], k)
+
+
+def check_node(W, ahist, hist, r, k=0):
     """evaluate one history on the used and on a fresh instance and compare with the reference.
     -> (steps or None, [violation (kind, signature, text)], decoded step)"""
-    ru = W.eval_used(hist)
+    ru = W.eval_used(hist, node_id(ahist, k))
     rf = W.eval_fresh(hist)
     viol = []
     nu, nf = norm(ru), norm(rf)
@@ -751,8 +756,9 @@ def explore(task):
     refstates = set()
     first_nodes = []
     unk = UNKNOWN_INTENT
+    W.trace = []
 
-    def add_viol(kind, sig, text, ahist, hist_len):
+    def add_viol(kind, sig, text, ahist, hist_len, k=0):
         counts["violating_histories"] += 1
         v = viols.get(sig)
         script = [list(e) for e in ahist if e[0] in ("user", "done")]
@@ -762,8 +768,9 @@ def explore(task):
                 "signature": sig, "n": n + 1,
                 "size": (prog_size(P), len(script), hist_len),
                 "what": f"program `{_oneline(W.src)}` script {_show_script(script)}: {text}",
-                "replay": {"source": W.src, "program": P, "order": list(order), "script": script,
+                "replay": {"source": W.src, "program": P, "order": list(order), "script": script, "k": k,
                            "kind": kind, "detail": text},
+                "_trace_len": len(W.trace) - 1,
             }
         else:
             v["n"] += 1
@@ -792,19 +799,19 @@ def explore(task):
                 cost, terminal = 1, False
             if dev + cost > max_dev:
                 continue
-            q.append((ah2, hist + W.user_events(i, not hist), r2, n_user + 1, dev + cost, depth + 1, terminal, zeros))
+            q.append((ah2, hist + W.user_events(i, not hist), r2, n_user + 1, dev + cost, depth + 1, terminal, zeros, 0))
 
     push_user_children((), [], r0, 0, 0, 0, 0)
     while q:
-        ahist, hist, r, n_user, dev, depth, terminal, zeros = q.popleft()
+        ahist, hist, r, n_user, dev, depth, terminal, zeros, k = q.popleft()
         counts["states"] += 1
         counts["traces_validated_against_impl"] += 1
         counts["max_history_len"] = max(counts["max_history_len"], len(hist))
-        steps, vs, step = check_node(W, ahist, hist, r)
+        steps, vs, step = check_node(W, ahist, hist, r, k)
         if len(first_nodes) < 6:
-            first_nodes.append((ahist, hist, norm(("ok", steps)) if steps is not None else None))
+            first_nodes.append((ahist, hist, norm(("ok", steps)) if steps is not None else None, k))
         for kind, sig, text in vs:
-            add_viol(kind, sig, text, ahist, len(hist))
+            add_viol(kind, sig, text, ahist, len(hist), k)
         strict = r["status"] == "strict"
         if strict:
             counts["strict_decisions_checked"] += 1
@@ -847,27 +854,31 @@ def explore(task):
                     continue
                 ah2 = ahist + (("done", step[1], res),)
                 q.append((ah2, h2 + W.action_events(h2, res), ref_run(P, ah2, W.tab) if strict else r,
-                          n_user, dev, depth + 1, terminal, zeros + (res == 0)))
+                          n_user, dev, depth + 1, terminal, zeros + (res == 0), 0))
         elif step is not None:
             ah2 = ahist + (("bot", step[1]),)
-            q.append((ah2, h2, ref_run(P, ah2, W.tab) if strict else r, n_user, dev, depth + 1, terminal, zeros))
+            q.append((ah2, h2, ref_run(P, ah2, W.tab) if strict else r, n_user, dev, depth + 1, terminal, zeros, k + 1))
         else:
             # only a ContextUpdate was decided: the runtime calls the decision function again
-            q.append((ahist, h2, ref_run(P, ahist, W.tab) if strict else r, n_user, dev, depth + 1, terminal, zeros))
+            q.append((ahist, h2, ref_run(P, ahist, W.tab) if strict else r, n_user, dev, depth + 1, terminal, zeros, k + 1))
     # the first histories once more on the used configs, after every other call was made
-    for ahist, hist, before in first_nodes:
+    for ahist, hist, before, k in first_nodes:
         if before is None:
             continue
         counts["reevaluated_after_all_calls"] += 1
-        again = norm(W.eval_used(hist))
+        again = norm(W.eval_used(hist, node_id(ahist, k)))
         if again != before:
             add_viol("dependence", "earlier-calls-matter:re-evaluation-after-longer-histories",
                      f"history evaluated first gave {_show_res(before)}, the same history after all other calls "
-                     f"of this program gives {_show_res(again)}", ahist, len(hist))
+                     f"of this program gives {_show_res(again)}", ahist, len(hist), k)
     if _strip_private(W.cfg_used.flows) != _strip_private(pickle.loads(W.pristine)):
         counts["flow_configs_changed_by_use"] = 1
     counts["transitions"] = W.calls
     counts["reference_states"] = len(refstates)
+    for v in viols.values():
+        n = v.pop("_trace_len")
+        if v["replay"]["kind"] == "dependence":
+            v["replay"]["earlier_calls_on_used_configs"] = [list(t) for t in W.trace[:n]]
     return {"idx": idx, "counts": counts, "features": feat_counts, "violations": list(viols.values()),
             "sample": sample, "size": prog_size(P), "grammar": opts["grammar"]}
 
@@ -899,18 +910,24 @@ def _ev_brief(e):
 
 # ------------------------------------------------------------------ tiers
 def plan(tier):
-    """[(grammar, size, [(main, sub)], f2 variant, max_user, max_dev)] smallest first"""
+    """[(grammar, size, [(main, sub)], f2 variant, bounds)] smallest first"""
+    small = {"max_user": 3, "max_dev": 1, "max_zero": 1}
+    big = {"max_user": 4, "max_dev": 2, "max_zero": 2}
     out = []
     if tier == "quick":
-        full, nest = (1, 2, 3, 4), (5,)
+        for n in (1, 2, 3):
+            out.append(("full", n, programs("full", n, (1, 2)), "simple", small))
+            out.append(("full", n, programs("full", n, (1, 2)), "two-turn-set", small))
+        out.append(("full", 4, programs("full", 4, (1, 2)), "simple", small))
+        out.append(("nest", 5, programs("nest", 5, ()), "simple", small))
     else:
-        full, nest = (1, 2, 3, 4, 5), (5, 6, 7)
-    for n in full:
-        out.append(("full", n, programs("full", n, (1, 2) if n <= 4 else (1,)), "simple"))
-    for n in full[:3]:
-        out.append(("full", n, programs("full", n, (1, 2)), "two-turn-set"))
-    for n in nest:
-        out.append(("nest", n, programs("nest", n, ()), "simple"))
+        for n in (1, 2, 3):
+            out.append(("full", n, programs("full", n, (1, 2)), "simple", big))
+            out.append(("full", n, programs("full", n, (1, 2)), "two-turn-set", big))
+        out.append(("full", 4, programs("full", 4, (1, 2)), "simple", big))
+        out.append(("nest", 5, programs("nest", 5, ()), "simple", big))
+        out.append(("nest", 6, programs("nest", 6, ()), "simple", big))
+        out.append(("full", 5, programs("full", 5, (1, 2)), "simple", small))
     return out
 
 
@@ -919,16 +936,16 @@ def run(rep, tier):
 
     lib()
     seed = rep.seed
-    opts = {"max_user": 4, "max_dev": 1 if tier == "quick" else 2, "max_zero": 1 if tier == "quick" else 2,
-            "max_depth": 40, "seed": seed}
     groups = plan(tier)
     ts = []
     totals = {}
-    for g, n, progs, f2 in groups:
+    bounds = {}
+    for g, n, progs, f2, bnd in groups:
         key = f"{g}:size={n}:f2={f2}"
         totals[key] = len(progs)
+        bounds[key] = bnd
         for main, sub in progs:
-            ts.append((len(ts), main, sub, f2, dict(opts, grammar=key)))
+            ts.append((len(ts), main, sub, f2, dict(bnd, max_depth=60, seed=seed, grammar=key)))
     budget = 45 if tier == "quick" else 17 * 60
     deadline = time.time() + budget
     done = {}
@@ -966,7 +983,7 @@ def run(rep, tier):
     rep.set("violation_classes", {s: {"histories": v["n"], "smallest": v["what"]} for s, v in sorted(by_sig.items())})
     rep.set("violation_classes_found", len(by_sig))
     rep.set("violation_classes_not_in_known_findings", new)
-    rep.set("bounds", {"max_user_turns": opts["max_user"], "max_unexpected_turns": opts["max_dev"],
+    rep.set("bounds", {"per_group (max user turns / max unexpected turns / max actions returning 0 per history)": bounds,
                        "action_results": [0, 1], "grammars": {k: [list(map(list, v[0])), list(map(list, v[1])), list(v[2])]
                                                               for k, v in GRAMMARS.items()}})
     rep.set("exhaustive", n_done == len(ts))
@@ -988,41 +1005,91 @@ def run(rep, tier):
 
 
 # ------------------------------------------------------------------ replay
+def build_history(W, script, k):
+    """the history of node (script, k): all script entries consumed, then k further decision rounds.
+    Decisions are taken from FRESH configs so that building a history never touches the used ones."""
+    hist, pos, waiting, since = [], 0, True, 0
+    while True:
+        if waiting or hist[-1]["type"] == "StartInternalSystemAction":
+            if pos == len(script):
+                return hist if since == k else None
+            e = script[pos]
+            pos += 1
+            since = 0
+            if e[0] == "user":
+                hist = hist + W.user_events(e[1], not hist)
+                waiting = False
+            else:
+                hist[-1]["is_system_action"] = False
+                hist = hist + W.action_events(hist, e[2])
+            continue
+        if pos == len(script) and since == k:
+            return hist
+        res = W.eval_fresh(hist)
+        if res[0] != "ok":
+            return None
+        since += 1
+        if res[1]:
+            hist = hist + res[1]
+        else:
+            waiting = True
+
+
 def replay(rp):
     lib()
     P = rp["program"]
     W = World(P, tuple(rp.get("order") or ("f1", "s1", "f2")))
     print(W.src)
     script = [tuple(e) for e in rp["script"]]
+    if rp.get("kind") == "dependence":
+        earlier = rp.get("earlier_calls_on_used_configs") or []
+        print(f"making the {len(earlier)} earlier calls of the search on the used flow configs ...")
+        for sc, k in earlier:
+            h = build_history(W, [tuple(e) for e in sc], k)
+            if h is not None:
+                W.eval_used(h)
+        h = build_history(W, script, rp.get("k", 0))
+        print("history:", [_ev_brief(e) for e in h])
+        print("  decided on the used configs :", _show_res(norm(W.eval_used(h))))
+        print("  decided on a fresh copy     :", _show_res(norm(W.eval_fresh(h))))
+        print("recorded:", rp.get("detail"))
+        return 0
     ahist, hist = (), []
     pos = 0
-    n = 0
-    while n < 60:
-        n += 1
-        if not hist or hist[-1]["type"] == "Listen":
+    waiting = True
+    for _ in range(80):
+        if waiting:
             if pos >= len(script):
                 break
             i = script[pos][1]
             pos += 1
-            if hist:
-                hist = hist[:-1]
             hist = hist + W.user_events(i, not hist)
             ahist = ahist + (("user", i),)
+            waiting = False
             print(f"user says: {i}")
         r = ref_run(P, ahist, W.tab)
-        ru, rf = norm(W.eval_used(hist)), norm(W.eval_fresh(hist))
-        exp = show_step(r["expect"]) + f" ctx={ {v: r['ctx'].get(v) for v in VARS} }" if r["status"] == "strict" else "(not demanded: a left flow is involved)"
-        print(f"  history of {len(hist)} events -> expected: {exp}")
-        print(f"      decided (used configs):  {_show_res(ru)}")
-        print(f"      decided (fresh configs): {_show_res(rf)}")
+        ru, rf = W.eval_used(hist), W.eval_fresh(hist)
+        if r["status"] == "strict":
+            exp = f"{show_step(r['expect'])}, context { {v: r['ctx'].get(v) for v in VARS} }"
+        else:
+            exp = "(nothing demanded: a flow that was left earlier is involved)"
+        print(f"  history of {len(hist)} events, last {_ev_brief(hist[-1])}")
+        print(f"      expected: {exp}")
+        print(f"      decided : {_show_res(norm(ru))}" + ("" if norm(ru) == norm(rf) else f"   BUT on fresh configs: {_show_res(norm(rf))}"))
         if ru[0] != "ok":
             break
-        steps = W.eval_used(hist)[1]
+        steps = ru[1]
         cu, step, bad = decode(steps)
-        if r["status"] == "strict" and (step != r["expect"] or ru != rf):
-            print("      ^^^ differs")
+        if r["status"] == "strict":
+            vis = W.visible_context(hist + steps)
+            if step != r["expect"] or bad:
+                print("      ^^^ step differs")
+                break
+            if vis != {v: r["ctx"].get(v) for v in VARS}:
+                print(f"      ^^^ context visible to the host after this decision: {vis}")
+                break
         if not steps:
-            hist = hist + [_LIB["new_event_dict"]("Listen")]
+            waiting = True
             continue
         hist = hist + steps
         if steps[-1]["type"] == "StartInternalSystemAction":
@@ -1033,8 +1100,6 @@ def replay(rp):
             ahist = ahist + (("done", step[1], res),)
             print(f"  action {step[1]} returns {res}")
         elif step is not None:
-            if r["status"] == "strict" and step != r["expect"]:
-                break
             ahist = ahist + (("bot", step[1]),)
     print("recorded:", rp.get("detail"))
     return 0
